@@ -152,3 +152,120 @@ theorem memo_agrees (H : List UInt8 → List UInt8) (heap : Heap) : ∀ (fuel p 
               exact inv1 p' i' hl' fuel' c' ht'
 
 end Tongo.Memo
+
+namespace Tongo.Memo
+open Tongo
+
+theorem hasherHash_agrees (H : List UInt8 → List UInt8) (heap : Heap) (fuel p : Nat) (cache : Cache) (c : Cell)
+    (hinv : CacheInv H heap cache) (ht : tree heap fuel p = some c) :
+    Agrees (hasherHash H heap fuel p cache) (Cell.reprHash H c) (CacheInv H heap) := by
+  have a := memo_agrees H heap fuel p cache c hinv ht
+  simp only [hasherHash, Cell.reprHash]
+  cases hm : hashMemo H heap fuel p cache with
+  | err e => rw [hm] at a; simp only [Agrees] at a; rw [a]; exact rfl
+  | panic e => rw [hm] at a; simp only [Agrees] at a; rw [a]; exact rfl
+  | ok r =>
+    obtain ⟨i, cache'⟩ := r
+    rw [hm] at a
+    obtain ⟨e, inv'⟩ := a
+    rw [e]
+    simp only [Outcome.bind_ok]
+    cases hh : i.hashAt 3 with
+    | ok b => exact ⟨rfl, inv'⟩
+    | err e => exact rfl
+    | panic e => exact rfl
+
+/-- agreement of a stateful call with the uncached function: same value and the invariant kept, or the same error,
+or the same panic -/
+def AgreesSt {α : Type} (r : Outcome (α × HasherState)) (s : Outcome α) (Inv : HasherState → Prop) : Prop :=
+  match r with
+  | .ok (x, st') => s = .ok x ∧ Inv st'
+  | .err e => s = .err e
+  | .panic x => s = .panic x
+
+theorem hasherHashSt_agrees (H : List UInt8 → List UInt8) (heap : Heap) (fuel p : Nat) (st : HasherState) (c : Cell)
+    (hinv : StateInv H heap st) (ht : tree heap fuel p = some c) :
+    AgreesSt (hasherHashSt H heap fuel p st) (Cell.reprHash H c) (StateInv H heap) := by
+  have a := hasherHash_agrees H heap fuel p st.cache c hinv.1 ht
+  simp only [hasherHashSt]
+  cases hm : hasherHash H heap fuel p st.cache with
+  | err e => rw [hm] at a; simp only [Agrees] at a; rw [a]; exact rfl
+  | panic e => rw [hm] at a; simp only [Agrees] at a; rw [a]; exact rfl
+  | ok r =>
+    obtain ⟨b, cache'⟩ := r
+    rw [hm] at a
+    exact ⟨a.1, a.2, hinv.2⟩
+
+theorem hasherHashString_agrees (H : List UInt8 → List UInt8) (heap : Heap) (fuel p : Nat) (st : HasherState)
+    (c : Cell) (hinv : StateInv H heap st) (ht : tree heap fuel p = some c) :
+    AgreesSt (hasherHashString H heap fuel p st) (Cell.hashString H c) (StateInv H heap) := by
+  simp only [hasherHashString]
+  cases hl : st.hex.lookup p with
+  | some s => exact ⟨hinv.2 p s hl fuel c ht, hinv⟩
+  | none =>
+    have a := hasherHash_agrees H heap fuel p st.cache c hinv.1 ht
+    simp only [Cell.hashString]
+    cases hm : hasherHash H heap fuel p st.cache with
+    | err e => rw [hm] at a; simp only [Agrees] at a; rw [a]; exact rfl
+    | panic e => rw [hm] at a; simp only [Agrees] at a; rw [a]; exact rfl
+    | ok r =>
+      obtain ⟨b, cache'⟩ := r
+      rw [hm] at a
+      obtain ⟨e, inv'⟩ := a
+      rw [e]
+      refine ⟨rfl, inv', ?_⟩
+      intro p' s' hl' fuel' c' ht'
+      simp only [List.lookup_cons] at hl'
+      cases hpp : p' == p with
+      | true =>
+        rw [hpp] at hl'
+        simp only [Option.some.injEq] at hl'
+        subst hl'
+        have hp' : p' = p := by simpa using hpp
+        subst hp'
+        have := tree_unique heap _ _ p' _ _ ht ht'
+        subst this
+        simp only [Cell.hashString, e, Outcome.bind_ok, pure]
+      | false =>
+        rw [hpp] at hl'
+        exact hinv.2 p' s' hl' fuel' c' ht'
+
+/-- every call of a sequence on one Hasher is answered like the uncached function -/
+theorem runCalls_sound (H : List UInt8 → List UInt8) (heap : Heap) (fuel : Nat) :
+    ∀ (calls : List Call) (st : HasherState), StateInv H heap st →
+      (∀ c ∈ calls, (plainAnswer H heap fuel c).isSome = true) →
+      (runCalls H heap fuel calls st).map some = calls.map (plainAnswer H heap fuel) := by
+  intro calls
+  induction calls with
+  | nil => intros; rfl
+  | cons call rest ih =>
+    intro st hinv hdef
+    have hrest : ∀ c ∈ rest, (plainAnswer H heap fuel c).isSome = true := fun c hc => hdef c (by simp [hc])
+    have hcall := hdef call (by simp)
+    cases call with
+    | hash p =>
+      simp only [plainAnswer, Option.isSome_map] at hcall
+      obtain ⟨c, hc⟩ := Option.isSome_iff_exists.mp hcall
+      have a := hasherHashSt_agrees H heap fuel p st c hinv hc
+      simp only [runCalls, List.map_cons, plainAnswer, hc, Option.map_some]
+      cases hm : hasherHashSt H heap fuel p st with
+      | ok r =>
+        obtain ⟨b, st'⟩ := r
+        rw [hm] at a
+        simp only [List.map_cons, a.1, ih st' a.2 hrest]
+      | err e => rw [hm] at a; simp only [AgreesSt] at a; simp only [List.map_cons, a, ih st hinv hrest]
+      | panic e => rw [hm] at a; simp only [AgreesSt] at a; simp only [List.map_cons, a, ih st hinv hrest]
+    | hashString p =>
+      simp only [plainAnswer, Option.isSome_map] at hcall
+      obtain ⟨c, hc⟩ := Option.isSome_iff_exists.mp hcall
+      have a := hasherHashString_agrees H heap fuel p st c hinv hc
+      simp only [runCalls, List.map_cons, plainAnswer, hc, Option.map_some]
+      cases hm : hasherHashString H heap fuel p st with
+      | ok r =>
+        obtain ⟨b, st'⟩ := r
+        rw [hm] at a
+        simp only [List.map_cons, a.1, ih st' a.2 hrest]
+      | err e => rw [hm] at a; simp only [AgreesSt] at a; simp only [List.map_cons, a, ih st hinv hrest]
+      | panic e => rw [hm] at a; simp only [AgreesSt] at a; simp only [List.map_cons, a, ih st hinv hrest]
+
+end Tongo.Memo
